@@ -301,7 +301,7 @@ def random_case(rng):
 
 
 def stress_case(rng, n, procs, kind="fresh"):
-    orders = [[rng.choice([0, 0, 1, 2, 3]) for _ in range(2)] for _ in range(n)]
+    orders = [[rng.choice([0, 0, 1, 2, 3]) for _ in range(1 if procs else 2)] for _ in range(n)]
     return {"mode": "stress", "n": n, "procs": procs, "kind": kind, "texts": [t for t, _ in TEXTS],
             "orders": orders, "pre": []}
 
@@ -336,9 +336,9 @@ def judge_stress(c, r):
     for i, rs in enumerate(r["results"]):
         if rs is None:
             return "worker %d did not report" % i
-        for ti, st, d in rs:
+        for ti, st, d, _dt in rs:
             if st != "ok":
-                return "worker %d: parse raised %s" % (i, d)
+                return "worker %d: parse raised %s after %.1f s" % (i, d, _dt)
             if d != r["want"][ti]:
                 return "worker %d: tree differs from the uncached parse" % i
     f = r["final"]
@@ -350,9 +350,22 @@ def judge_stress(c, r):
     return None
 
 
-def tag_of(c):
+TIMEOUT_TAG = "busy-timeout-under-contention"
+BUSY_TIMEOUT = 5.0      # sqlite3.connect default; parse() passes none (tie:connect obligation)
+
+
+def tag_of(c, r=None):
     if c["kind"] == "corrupt" and (c["mode"] == "stress" or len(c["calls"]) >= 2):
         return KNOWN_TAG
+    if c["mode"] == "stress" and r and r.get("results"):
+        # every failing call waited (at least) the whole busy timeout, or failed after some call of the round
+        # had waited that long (an integrity check that times out is taken for corruption and removes the
+        # file under the others) - as opposed to the immediate SQLITE_BUSY of a lock upgrade
+        calls = [x for rs in r["results"] if rs for x in rs]
+        fails = [x for x in calls if x[1] != "ok"]
+        slow = [x for x in calls if x[3] >= 0.9 * BUSY_TIMEOUT]
+        if fails and slow and all(x[3] >= 0.9 * BUSY_TIMEOUT or "locked" not in x[2] for x in fails):
+            return TIMEOUT_TAG
     return "%s-%s" % (c["mode"], c["kind"])
 
 
@@ -458,11 +471,13 @@ def run(ctx):
                                   ("timeout" not in k or _num(k["timeout"]) >= 5.0) for k in kws)
         ctx.oblige("tie:connect(isolation_level=None, busy timeout >= default 5 s)", kw_ok, json.dumps(kws))
         ctx.notes["skeleton"] = prog
+        global BUSY_TIMEOUT
+        BUSY_TIMEOUT = min([_num(k["timeout"]) for k in kws if "timeout" in k] or [5.0])
     except (ProbeError, KeyError, SyntaxError, IndexError) as e:
         ctx.oblige("tie:T8-skeleton-probe (fail closed)", False, repr(e))
 
     # ---- S3: cases ----
-    n_rand = ctx.scaled(90, 1200)
+    n_rand = ctx.scaled(45, 1000)
     dcs = directed()
     rcs = [random_case(ctx.rng) for _ in range(n_rand)]
     ccs = corrupt_cases()
@@ -497,7 +512,7 @@ def run(ctx):
     for c, r in zip(stress, stress_res):
         why = judge_stress(c, r)
         if why:
-            core.report(ctx, tag_of(c), why, {"input": c, "observed": r.get("final"), "why_detail": why})
+            core.report(ctx, tag_of(c, r), why, {"input": c, "observed": r.get("final"), "calls": r.get("results")})
 
     # (b) correspondence (i)+(iii): model run on the effective schedule vs the observed attempts
     idx = [i for i, r in enumerate(sres) if "trace" in r]
